@@ -56,7 +56,7 @@ type storeGen struct {
 	usedVersions     map[int]bool
 	saveFailAttempts int
 	inFork           bool // the current round re-executes a saved round at the same version (no version bumps there)
-	verShapes        bool // VERIF_VERSION_SHAPES: version changes while children are open, children filled by MergeDB
+	verShapes        bool // version changes while children are open, children filled by MergeDB (on since fix 280766e; VERIF_VERSION_SHAPES=0 switches them off)
 	pruned           int
 }
 
@@ -269,7 +269,7 @@ func (g *storeGen) unusedPast() int {
 	return -1
 }
 
-// versionShape: with VERIF_VERSION_SHAPES, before a child is merged: the parent (block trie) is bumped by SetVersion
+// versionShape: before a child is merged: the parent (block trie) is bumped by SetVersion
 // while children are open, or the child's own version is changed, or the child is filled by MergeDB from a donor - the
 // merged nodes then carry an origin other than the parent's version at merge time
 func (g *storeGen) versionShape(c *gTrie) {
@@ -549,7 +549,7 @@ func (g *storeGen) round(fork bool) {
 
 func genStoreCase(prof storeProfile) func(r *rand.Rand, tier string, idx int) []string {
 	return func(r *rand.Rand, tier string, idx int) []string {
-		g := &storeGen{r: r, prof: prof, keys: genKeyUniverse(r), version: r.Intn(4), savedMap: map[string]string{}, usedVersions: map[int]bool{}, saveFailAttempts: 60, verShapes: os.Getenv("VERIF_VERSION_SHAPES") != ""}
+		g := &storeGen{r: r, prof: prof, keys: genKeyUniverse(r), version: r.Intn(4), savedMap: map[string]string{}, usedVersions: map[int]bool{}, saveFailAttempts: 60, verShapes: os.Getenv("VERIF_VERSION_SHAPES") != "0"}
 		if tier == "thorough" {
 			g.saveFailAttempts = 400
 		}
